@@ -29,6 +29,7 @@
 #include <chrono>
 
 #include <tbox/base/log.h>
+#include <tbox/base/verif_hooks.h>
 #include <tbox/base/defines.h>
 #include <tbox/base/cabinet.hpp>
 #include <tbox/base/catch_throw.h>
@@ -213,6 +214,7 @@ void WorkThread::threadProc()
 
             item = popOneTask();    //! 从任务队列中取出优先级最高的任务
         }
+        TBOX_VERIF_SCHED_POINT("work_thread.after_pop");
 
         //! 后面就是去执行任务，不需要再加锁了
         if (item != nullptr) {
@@ -257,6 +259,10 @@ void WorkThread::threadProc()
 
 bool WorkThread::shouldThreadExitWaiting() const
 {
+#ifdef CPP_TBOX_VERIF
+    if (!d_->stop_flag && d_->undo_tasks_token_deque.empty())
+        TBOX_VERIF_SCHED_POINT("work_thread.pred_false");
+#endif
     return d_->stop_flag || !d_->undo_tasks_token_deque.empty();
 }
 
@@ -285,6 +291,7 @@ void WorkThread::cleanup()
         }
     }
 
+    TBOX_VERIF_SCHED_POINT("work_thread.cleanup_before_stop_flag");
     d_->stop_flag = true;
     d_->cond_var.notify_all();
 
